@@ -18,6 +18,18 @@ def judgeUpsel (fields : List String) : String :=
       let mn := cs.foldl min mx
       if mx - mn ≤ 1 ∧ cs.foldl (· + ·) 0 = 12 then "ok rrpipe 1" else "ok rrpipe 1 TRIP rr_unbalanced"
     | none => "BADLINE upsel rrpipe"
+  | ["recover", "unavailable"] => "ok recover-unavailable 0"
+  | ["recover", up, c1, b1, c2, c3, b3, c4, b4] =>
+    -- a primary that failed one client request between two health checks, then is back and passes its check:
+    -- traffic returns to it by itself; the backup serves only while no primary is healthy
+    if up ≠ "1" then "ok recover-unavailable 0" else
+    let prim := hex "srv0".toList
+    let served (c b : String) : Bool := c = "200" && b = prim
+    let t := (if !(served c1 b1) then " TRIP no_server_while_healthy" else "")
+      ++ (if c2 = "-" then " TRIP no_5xx" else "")   -- (the one failed request is an error answer of pike's own, whatever its code)
+      ++ (if c3 = "200" ∧ b3 ≠ prim ∨ c4 = "200" ∧ b4 ≠ prim then " TRIP backup_while_primary" else "")
+      ++ (if c3 ≠ "200" ∨ c4 ≠ "200" then " TRIP no_server_while_healthy" else "")
+    s!"ok recover 1{t}"
   | ["degraded", code, forwarded] =>
     -- a server that fails its HTTP health check gets no client request; the client gets a 5xx
     let t1 := if forwarded ≠ "0" then " TRIP sent_to_unhealthy" else ""
